@@ -334,8 +334,17 @@ func (e *engine) verify(fc *funcContract, props []string) *vc {
 		t := v.havoc("fv."+fvar.Name(), fvar.Type(), st)
 		fr.vals[fvar] = t
 		if _, isPtr := fvar.Type().Underlying().(*types.Pointer); isPtr {
-			// captured variables are cells allocated by the enclosing function
+			// captured variables are cells allocated by the enclosing function: non-nil, and distinct
+			// variables live in distinct cells
 			v.rawFact(fmt.Sprintf("(not (= %s 0))", t))
+			for _, other := range fn.FreeVars {
+				if other == fvar {
+					break
+				}
+				if _, isPtr2 := other.Type().Underlying().(*types.Pointer); isPtr2 {
+					v.rawFact(fmt.Sprintf("(not (= %s %s))", t, fr.vals[other]))
+				}
+			}
 		}
 	}
 	for _, g := range fc.ghosts {
@@ -388,6 +397,7 @@ func (e *engine) verify(fc *funcContract, props []string) *vc {
 	v.entry = st.clone()
 	v.cover(st, "requires", "true")
 	v.runBody(fr, st)
+	v.checkDirectiveSites(fn, fc)
 	if len(fr.results) == 0 && !fc.panicsOK {
 		v.note("function has no reachable return")
 	}
